@@ -24,6 +24,7 @@ def run(ctx: Ctx) -> list[Ob]:
     obs += r6e.r6s(ctx, modules=("cirkit.backend", "cirkit.pipeline"))
     obs += [o for o in r6.r6d(ctx) if o.instance.split(':')[0] in ('returns-compiled', 'maps', 'known', 'active-context')]
     obs += r3.r3k(ctx)
+    obs += r10.r10n(ctx)
     return obs
 
 
@@ -40,8 +41,9 @@ SPEC = PropSpec(
         "once, and registered after post-processing. R10g (evaluation purity): no evaluation method (forward, __call__, evaluate, log_partition_function, integrate, sample, ...) of any torch-side layer, parameter node, parameter graph or circuit stores anything on self -- a value memoised during evaluation survives in-place updates / re-initialisation / load_state_dict of the parameters it was computed from. R6p (foreign tensors stay behind pointers): a value obtained from X.deref() / retrieve_compiled_parameter(..)[0] in the torch backend -- a tensor node owned by an already compiled circuit -- is only inspected or wrapped as TorchPointerParameter(<it>, ..); it is never returned, yielded, stored or passed on as a node of the new parameter graph (it would be re-initialised by the reset_parameters() that ends the derived circuit's compilation)."
         " R6r: compile_tensor_parameter allocates (and registers) a torch tensor only when the symbolic tensor has no compiled counterpart yet -- a second circuit sharing symbolic layers references the first compilation instead of overwriting the registry. R6q: resets / initialisers follow parameter graphs, never torch's module tree (which contains the tensors pointers refer to). R6s (per-instance state): no mutable container bound in a class body of cirkit.backend / cirkit.pipeline (the compile path) is mutated through self without an __init__ rebinding it (ClassVar registries excepted) -- a class-level `_compiled_parameters = {}` would be one symbolic -> compiled registry for every compiler, and a circuit derived in one context would point at the tensors another context compiled last. R6d ('compiled in the same pipeline context'): every PipelineContext operator method checks and maps its operands through its own compiler and returns self.compile(result) -- not the module-level compile(), which dispatches to whichever context is active; the module-level functions resolve the active context."
         " R3k: every constructor hyper-parameter of a concrete symbolic layer (everything but its params and *_factory alternatives) is a key of its config and round-trips through it -- Layer.copyref(), the copy every operator makes of a layer it does not transform, rebuilds the layer from config (a constant layer that loses log_space is read as linear by the next operator)."
+        ' R10n: a parameter node that holds another node (TorchPointerParameter) evaluates the stored target in forward and never returns a tensor bound from it elsewhere (reset_parameters, the constructor): a bound tensor follows in-place updates and silently stops following the operand when the operand re-allocates.'
     ),
     not_decided="numerical relations after parameter updates (they follow from single storage, which is what is decided).",
     run=run,
-    floors={"R3k": 25, "R6s": 90, "R6d": 20, "R6p": 4, "R10g": 60, "R2a": 70, "R2b": 25, "R3e": 5, "R6b": 10, "R3a": 60},
+    floors={"R10n": 1, "R3k": 25, "R6s": 90, "R6d": 20, "R6p": 4, "R10g": 60, "R2a": 70, "R2b": 25, "R3e": 5, "R6b": 10, "R3a": 60},
 )
